@@ -136,7 +136,7 @@ def c10(F, R, tier):
           'data-independent seed, Alma centre/width expressions and positive stored weights. From these the interval, '
           'constant-reproduction, monotonicity and affine clauses follow in real arithmetic. ' + PARTIAL)
 def c04(F, R, tier):
-    e_typed_props.run_c04(F, R)
+    e_typed_props.run_c04(F, R, tier)
 
 
 from . import e_ready
